@@ -24,7 +24,7 @@ func init() {
 	ruleText["R15.3"] = "in importSrc, the test of Interpreter.srcPkg[importPath] with its early return dominates every io/fs call and every run"
 	ruleText["R15.5"] = "in getVarDependencies the kind of an identifier's parent node is tested only against selectorExpr (and keyValueExpr only together with a struct-literal test); no other parent kind makes an identifier be ignored"
 	ruleText["R15.6"] = "in genGlobalVarDecl, from the statement appending a variable to the ordered list the head of the innermost enclosing loop is not reachable without leaving that loop: the earliest ready variable is taken first, then the scan restarts"
-	ruleText["R15.7"] = "for every case of gta's switch over node kinds that creates variable symbols (directly or in a directly called in-package function), each &symbol{kind: varSym} literal has node and global keys, or the case assigns the node and global fields afterwards"
+	ruleText["R15.7"] = "for every case of gta's switch over node kinds that creates variable symbols (directly or in a directly called in-package function), each &symbol{kind: varSym} literal records the declaration node (and the global flag if getVarDependencies tests it), in the literal or by an assignment in the same case"
 	ruleText["R15.8"] = "in the defineStmt and defineXStmt cases of gta no in-package resolving call assigns the pass's named error result (cfgErrorf excepted) and the node is appended to the revisit list"
 	ruleText["R15.4"] = "the function collecting the dependencies of a package variable handles function symbols (refers to funcSym): dependencies that pass through function bodies are followed"
 }
@@ -742,6 +742,19 @@ func c15R7(ic *IC, r *Report) {
 		})
 		return out
 	}
+	// does the collector demand the global flag of a dependency?
+	needGlobal := false
+	if col := ic.F["getVarDependencies"]; col != nil && col.Decl.Body != nil {
+		ast.Inspect(col.Decl.Body, func(m ast.Node) bool {
+			if se, ok := m.(*ast.SelectorExpr); ok && selField(ic.Info, se) == globalFld {
+				needGlobal = true
+			}
+			return true
+		})
+	} else {
+		r.Errorf("anchor not resolved: getVarDependencies")
+		return
+	}
 	n := 0
 	ast.Inspect(fi.Decl.Body, func(nd ast.Node) bool {
 		cc, ok := nd.(*ast.CaseClause)
@@ -792,13 +805,13 @@ func c15R7(ic *IC, r *Report) {
 		}
 		var bad []string
 		for _, l := range lits {
-			if (!l.node && !setsNode) || (!l.global && !setsGlobal) {
+			if (!l.node && !setsNode) || (needGlobal && !l.global && !setsGlobal) {
 				what := []string{}
 				if !l.node && !setsNode {
 					what = append(what, "declaration node")
 				}
-				if !l.global && !setsGlobal {
-					what = append(what, "global flag")
+				if needGlobal && !l.global && !setsGlobal {
+					what = append(what, "global flag (which the collector demands)")
 				}
 				bad = append(bad, "symbol created at "+ic.pos(l.pos)+" has no "+strings.Join(what, " and no "))
 			}
